@@ -1,4 +1,7 @@
+import RactorModel.Lemmas.GenJobMeta
+import RactorModel.Lemmas.GenFrame
 import RactorModel.Lemmas.Frames
+import RactorModel.Lemmas.FramesIo
 import RactorModel.Extracted
 
 /-!
@@ -230,6 +233,39 @@ theorem buffer_grows_only_with_received_bytes (len : Nat) (chunks : List Bytes) 
     traceOk 8 8 0 (readN 8 8 chunks).2.2 = true :=
   ⟨readN_traceOk _ _ _, readN_traceOk _ _ _⟩
 
+/-- (a transport that FAILS) When the transport, after delivering the pieces `chunks`, answers the
+next read with an I/O error instead of EOF (every `?` of `read_u64` / `read_n_bytes`), the reader's
+life is still: decoded frames, then exactly one error, then nothing; it does not depend on the
+fragmentation; the frames decoded before the failure are exactly those of the same bytes followed
+by EOF; and the failure is never reported as a clean EOF (stop reason `frame_read_error`, not
+`channel_closed`). -/
+theorem io_error_stops_reader {Msg : Type} (dec : Bytes → Option Msg) (max : Nat) (chunks : List Bytes)
+    (endIo : Bool) :
+    stopsAtFirstError (readFramesIo dec max chunks endIo).1 = true ∧
+    (readFramesIo dec max chunks endIo).1 = (readFramesIo dec max [chunks.flatten] endIo).1 ∧
+    (∀ m, FrameRes.ok m ∈ (readFramesIo dec max chunks endIo).1 ↔ FrameRes.ok m ∈ (readFrames dec max chunks).1) ∧
+    (endIo = true → FrameRes.err FrameErr.eof ∉ (readFramesIo dec max chunks endIo).1) ∧
+    (∀ e, FrameRes.err e ∈ (readFramesIo dec max chunks true).1 → stopReason e = "frame_read_error") := by
+  refine ⟨?_, ?_, ?_, ?_, ?_⟩
+  · simp only [readFramesIo, stops_map_ioEnd]
+    exact readFrames_stops dec max chunks
+  · simp only [readFramesIo]
+    rw [readFrames_fst_eq dec max chunks]
+  · intro m
+    simp only [readFramesIo]
+    exact ok_mem_map_ioEnd endIo _ m
+  · intro h
+    subst h
+    exact no_eof_after_ioEnd _
+  · intro e he
+    have := no_eof_after_ioEnd (readFrames dec max chunks).1
+    cases e with
+    | eof => exact absurd he this
+    | tooLarge => rfl
+    | unalloc => rfl
+    | undecodable => rfl
+    | io => rfl
+
 /-- (round trip) Frames written by `encode_network_message`, each within the limit, are read
 back in order whatever the fragmentation, followed by EOF; every byte is consumed. -/
 theorem frames_roundtrip {Msg : Type} (dec : Bytes → Option Msg) (max : Nat) (ps : List Bytes)
@@ -376,6 +412,196 @@ example : framesObs (fun p => some p) 4 [[0,0,0,0,0,0,0,5, 1,2,3,4,5]] = ([.err 
 
 example : metaOk ⟨1700000000000000000, some 1500, [1, 2]⟩ = true := by decide
 
+/-- (an undecodable message harms nobody) Whatever `from_boxed` does with a serialized message that
+is not a message of the actor — return `Err` or panic —, `handle` is not called, the actor keeps
+running with its state untouched, and if the message was a `Call` its reply port is dropped: the
+caller observes an absence, never a value. For the generated decoders (`decodedOf`) this is the
+case exactly when the model's `deserialize` rejects the message. -/
+theorem undecodable_message_harms_nobody (vs : List Variant) (st : ActorSt) (m : SMsg) :
+    (handleMessage st m .err).handled = st.handled ∧ (handleMessage st m .panic).handled = st.handled ∧
+    (handleMessage st m .err).running = st.running ∧ (handleMessage st m .panic).running = st.running ∧
+    (handleMessage st m .err).droppedPorts = st.droppedPorts + (if m.isCall then 1 else 0) ∧
+    (handleMessage st m .panic).droppedPorts = st.droppedPorts + (if m.isCall then 1 else 0) ∧
+    (deserialize vs m = none → (handleMessage st m (decodedOf vs m)).handled = st.handled ∧
+      (handleMessage st m (decodedOf vs m)).running = st.running) ∧
+    (∀ d, deserialize vs m = some d → (handleMessage st m (decodedOf vs m)).handled = st.handled ++ [d]) := by
+  refine ⟨rfl, rfl, rfl, rfl, rfl, rfl, ?_, ?_⟩
+  · intro h; simp [decodedOf, h, handleMessage]
+  · intro d h; simp [decodedOf, h, handleMessage]
+
+/-! ## `Job` messages, reply-port position, reply bridge -/
+
+/-- (`Job::deserialize` rejects) A job message is decoded iff its metadata is present with at
+least 16 bytes, the key decoder accepts the key bytes AND the inner message decodes; a
+`CallReply` never is. In every other case the result is `none` — the message is dropped
+(`undecodable_payload_dropped`), whatever the other parts say. -/
+theorem job_decodes_iff (kty : Ty) (vs : List Variant) (m : SMsg) (md : Option Bytes) :
+    (decodeJob kty vs m md).isSome ↔
+      (m ≠ .callReply ∧ ∃ jm, decodeMeta md = some jm ∧ (decode kty jm.key).isSome ∧ (deserialize vs m).isSome) := by
+  cases m with
+  | callReply => simp [decodeJob]
+  | cast tag args =>
+    simp only [decodeJob]
+    cases hm : decodeMeta md with
+    | none => simp
+    | some jm =>
+      cases hk : decode kty jm.key with
+      | none => simp [hk]
+      | some k => simp [hk]
+  | call tag args =>
+    simp only [decodeJob]
+    cases hm : decodeMeta md with
+    | none => simp
+    | some jm =>
+      cases hk : decode kty jm.key with
+      | none => simp [hk]
+      | some k => simp [hk]
+
+/-- (`Job` round trip) key, options (submit time, `0 < ttl < 2⁶⁴` or none) and the inner message
+of every variant shape survive `Job::serialize` followed by `Job::deserialize`. -/
+theorem job_roundtrip (kty : Ty) (key : Val) (submit : Nat) (ttl : Option Nat) (vs : List Variant)
+    (v : Variant) (vals : List Val) (sm : SMsg) (md : Bytes)
+    (hk : wf kty key = true) (hm : metaOk ⟨submit, ttl, encode kty key⟩ = true)
+    (hv : findVariant vs v.kind v.tag = some v) (hwf : wfFields v.fields vals = true)
+    (hlen : ∀ bs, pack (encodeFields v.fields vals) = some bs → bs.length < wordLimit)
+    (he : encodeJob kty key submit ttl v vals = some (sm, md)) :
+    decodeJob kty vs sm (some md) = some (key, ⟨submit, ttl, encode kty key⟩, v.tag, vals) := by
+  unfold encodeJob at he
+  cases hs : serialize v vals with
+  | none => simp [hs] at he
+  | some sm' =>
+    simp only [hs, Option.map_some, Option.some.injEq, Prod.mk.injEq] at he
+    obtain ⟨rfl, rfl⟩ := he
+    have hd := enum_roundtrip vs v vals sm' hv hwf hs hlen
+    have hmeta := meta_roundtrip _ hm
+    have hkey := builtin_roundtrip kty key hk
+    have hne : sm' ≠ .callReply := by
+      intro h; rw [h] at hd; simp [deserialize] at hd
+    cases sm' with
+    | callReply => exact absurd rfl hne
+    | cast tag args => simp [decodeJob, hmeta, hkey, hd]
+    | call tag args => simp [decodeJob, hmeta, hkey, hd]
+
+/-- (reply port anywhere) For a tuple-style `#[rpc]` variant whose port is the field number
+`idx` of `n + 1` fields: the generated pattern / constructor list has the port exactly at `idx`,
+and removing it gives back the data fields in declaration order — the order in which they are
+packed and unpacked — for EVERY position of the port. -/
+theorem reply_port_position {α : Type} (data : List α) (port : α) (idx : Nat) (h : idx ≤ data.length) :
+    (orderedBindings port data idx).length = data.length + 1 ∧
+    (orderedBindings port data idx)[idx]? = some port ∧
+    dataFieldsOf (orderedBindings port data idx) idx = data := by
+  induction data generalizing idx with
+  | nil =>
+    have : idx = 0 := by simpa using h
+    subst this
+    simp [orderedBindings, dataFieldsOf]
+  | cons d ds ih =>
+    cases idx with
+    | zero => simp [orderedBindings, dataFieldsOf]
+    | succ k =>
+      have := ih k (by simpa using h)
+      simp only [orderedBindings, dataFieldsOf, List.length_cons, List.getElem?_cons_succ, List.eraseIdx_cons_succ]
+      exact ⟨by omega, this.2.1, by rw [show List.eraseIdx (orderedBindings port ds k) k = ds from this.2.2]⟩
+
+/-- (reply value) What the real actor answers on the typed port reaches the caller unchanged
+through the two bridges (`into_bytes` on the callee's node, `from_bytes` on the caller's) for
+every reply type and well-formed value; and a reply whose bytes do not decode (a panic inside
+`from_bytes`, caught) yields no value at all, never a wrong one. -/
+theorem reply_bridge_roundtrip (rt : Ty) (v : Val) (h : wf rt v = true) : replyBridge rt v = some v :=
+  builtin_roundtrip rt v h
+
+example : (orderedBindings "port" ["a", "b"] 1, dataFieldsOf ["a", "port", "b"] 1) = (["a", "port", "b"], ["a", "b"]) := by
+  decide
+
+#print axioms C19.io_error_stops_reader
+#print axioms C19.undecodable_message_harms_nobody
+#print axioms C19.job_decodes_iff
+#print axioms C19.job_roundtrip
+#print axioms C19.reply_port_position
+#print axioms C19.reply_bridge_roundtrip
+
+
+
+/-! ### Translator tie (rs2lean): kernel-checked equivalence between the definitions that
+`extract/rs2lean.py` regenerates from the CURRENT Rust source on every run
+(`RactorModel/Generated/*.lean`) and the hand-written model functions the theorems above are
+about. A semantic change of the Rust function changes the generated text and these stop checking. -/
+
+section XlateTie
+open Generated.Frame GenFrame
+
+theorem generated_checked_frame_length_eq_model (len max : Nat) :
+    (checked_frame_length len max).mapError absErr = Codec.checkedFrameLength len max := by
+  unfold checked_frame_length Codec.checkedFrameLength
+  by_cases h1 : len > max
+  · simp [h1, Except.mapError, absErr]
+  · have hx : Rust.unwrap (Rust.tryFrom 64 9223372036854775807) = Codec.isizeMax := by decide
+    simp only [h1, decide_false, Bool.false_eq_true, ↓reduceIte, hx]
+    by_cases h2 : len > Codec.isizeMax
+    · simp [h2, Except.mapError, absErr]
+    · have h3 : len < 2 ^ 64 := by unfold Codec.isizeMax at h2; omega
+      simp [h2, Rust.tryFrom, h3, Rust.okOr, Except.mapError]
+
+theorem generated_frame_constants :
+    FRAME_READ_CHUNK_SIZE = Codec.chunkSize ∧ DEFAULT_MAX_INBOUND_FRAME_SIZE = Codec.defaultMaxFrame := by
+  decide
+
+/-- write side: `encode_network_message` appends the 8-byte big-endian length and the payload,
+i.e. `Codec.encodeFrame` (for a payload whose length fits `u64`, else the real code panics). -/
+theorem generated_encode_network_message_eq_model (msg buf : List UInt8) (h : msg.length < 2 ^ 64) :
+    encode_network_message msg buf = buf ++ Codec.encodeFrame msg := by
+  simp [encode_network_message, Codec.encodeFrame, Rust.unwrap, Rust.tryFrom, h, List.append_assoc]
+end XlateTie
+
+section XlateTieMeta
+open Generated.JobMeta GenJobMeta Codec
+
+/-- `JobOptions::into_bytes`: exactly 16 bytes, submit time then ttl (`None ↦ 0`), both `as u64`. -/
+theorem generated_job_options_into_bytes_eq_model (dflt o : JobOptions) :
+    JobOptions.into_bytes dflt o
+      = encodeBE 8 (o.submit_time % 2 ^ 64) ++ encodeBE 8 ((o.ttl.map (· % 2 ^ 64)).getD 0) := by
+  unfold JobOptions.into_bytes
+  simp only [Rust.cast, Nat.sub_zero]
+  exact copy_two (0 : UInt8) _ _ 8 (length_encodeBE _ _) (length_encodeBE _ _)
+
+/-- `Job::serialize_meta` = `Codec.encodeMeta` for metadata within the `u64` ranges. -/
+theorem generated_serialize_meta_eq_model (dflt : JobOptions) (j : Job)
+    (hs : j.options.submit_time < 2 ^ 64) (ht : ∀ t, j.options.ttl = some t → t < 2 ^ 64)
+    (hk : 16 + j.key.length < 2 ^ 64) :
+    (Job.serialize_meta dflt j).1 = encodeMeta (absMeta j.key j.options) := by
+  unfold Job.serialize_meta
+  simp only [generated_job_options_into_bytes_eq_model]
+  have hw : Rust.wAdd 64 16 j.key.length = 16 + j.key.length := by unfold Rust.wAdd; omega
+  rw [hw]
+  have hl : (encodeBE 8 (j.options.submit_time % 2 ^ 64)
+      ++ encodeBE 8 ((j.options.ttl.map (· % 2 ^ 64)).getD 0)).length = 16 := by
+    simp [length_encodeBE]
+  rw [copy_head_tail (0 : UInt8) _ j.key 16 hl]
+  have h1 : j.options.submit_time % 2 ^ 64 = j.options.submit_time := Nat.mod_eq_of_lt hs
+  have h2 : (j.options.ttl.map (· % 2 ^ 64)).getD 0 = j.options.ttl.getD 0 := by
+    cases h : j.options.ttl with
+    | none => rfl
+    | some t => simp [Nat.mod_eq_of_lt (ht t h)]
+  simp [encodeMeta, absMeta, h1, h2]
+
+/-- `Job::deserialize_meta` (+ `JobOptions::from_bytes` on the 16-byte prefix) = `Codec.decodeMeta`,
+for every input and every default value. -/
+theorem generated_deserialize_meta_eq_model (dflt : JobOptions) (ob : Option (List UInt8)) :
+    (match Job.deserialize_meta dflt ob with
+     | .ok (k, o) => some (absMeta k o)
+     | .error _ => none) = decodeMeta ob := by
+  cases ob with
+  | none => rfl
+  | some bs =>
+    unfold Job.deserialize_meta decodeMeta
+    by_cases h : bs.length < 16
+    · simp [h]
+    · have hl : (List.take 16 bs).length = 16 := by simp; omega
+      simp only [h, decide_false, Bool.false_eq_true, ↓reduceIte, JobOptions.from_bytes, hl, ne_eq,
+        not_true_eq_false, absMeta]
+      simp [List.take_take, List.drop_take]
+end XlateTieMeta
+
 end C19
 
 #print axioms C19.int_roundtrip
@@ -408,3 +634,10 @@ end C19
 #print axioms C19.chunk_size_value
 #print axioms C19.src_frame_chunk
 #print axioms C19.src_default_max_frame
+-- rs2lean tie
+#print axioms C19.generated_checked_frame_length_eq_model
+#print axioms C19.generated_frame_constants
+#print axioms C19.generated_encode_network_message_eq_model
+#print axioms C19.generated_job_options_into_bytes_eq_model
+#print axioms C19.generated_serialize_meta_eq_model
+#print axioms C19.generated_deserialize_meta_eq_model
